@@ -68,20 +68,25 @@ Pkcs1Schemes == {RsaPkcs1Sha256, RsaPkcs1Sha384, RsaPkcs1Sha512}
 PssSchemes   == {RsaPssSha256, RsaPssSha384, RsaPssSha512}
 AllSigs == EcdsaSchemes \cup Pkcs1Schemes \cup PssSchemes \cup {Ed25519}
 \* schemes whose algorithm family can be produced with a key of that type at all
-Family(key) == IF key = "ecdsa" THEN EcdsaSchemes ELSE IF key = "rsa" THEN Pkcs1Schemes \cup PssSchemes ELSE {}
+Family(key) == IF key = "ecdsa" THEN EcdsaSchemes ELSE IF key = "rsa" THEN Pkcs1Schemes \cup PssSchemes
+               ELSE IF key = "ed25519" THEN {Ed25519} ELSE {}
+\* which certificate keys can serve a suite of a given authentication kind: ECDHE_ECDSA suites are also the ones an
+\* EdDSA certificate is used with (RFC 8422 5.10 / RFC 8446 4.2.3); ECDHE_RSA suites need an RSA key
+KeyServes(cert, auth) == cert = auth \/ (cert = "ed25519" /\ auth = "ecdsa")
 \* schemes that fit the lab keys (ECDSA P-256, RSA 2048) without any doubt in version v:
 \*   TLS 1.2: ECDSA with any hash, RSA PKCS#1 (PSS in 1.2 is optional: RFC 8446 4.2.3) ;
 \*   TLS 1.3: ecdsa_secp256r1_sha256 only for a P-256 key, RSA-PSS only (PKCS#1 is forbidden)
 StrictFit(key, v) ==
   IF key = "ecdsa" THEN (IF v = 12 THEN EcdsaSchemes ELSE {EcdsaP256Sha256})
   ELSE IF key = "rsa" THEN (IF v = 12 THEN Pkcs1Schemes ELSE PssSchemes)
+  ELSE IF key = "ed25519" THEN {Ed25519}
   ELSE {}
 \* schemes that MAY be used: the family, minus what the version forbids outright
 MayFit(key, v) == IF key = "rsa" /\ v = 13 THEN PssSchemes ELSE Family(key)
 
 -----------------------------------------------------------------------------
 (* a configuration: ver "12" | "13" | "dual"; suites/curves/sigs/srtp/alpn: sets, {} = default / absent;
-   psk: BOOLEAN; cert: "none" | "ecdsa" | "rsa"; ems: 0 request, 1 require, 2 disable; cid: -1 = no generator *)
+   psk: BOOLEAN; cert: "none" | "ecdsa" | "rsa" | "ed25519"; ems: 0 request, 1 require, 2 disable; cid: -1 = no generator *)
 Range(cfg) == IF cfg.ver = "12" THEN {12} ELSE IF cfg.ver = "13" THEN {13} ELSE {12, 13}
 
 Listed(cfg, v)    == IF cfg.suites = {} THEN (IF v = 12 THEN Default12 ELSE Default13)
@@ -96,7 +101,7 @@ Usable(cfg, v) == v \in Range(cfg) /\ Listed(cfg, v) # {} /\ EffGroups(cfg, v) #
 CredOK(cfg, role, x) ==
   CASE SuiteAuth(x) = "psk"  -> cfg.psk
     [] SuiteAuth(x) = "cert" -> role = "c" \/ cfg.cert # "none"
-    [] OTHER                 -> role = "c" \/ cfg.cert = SuiteAuth(x)
+    [] OTHER                 -> role = "c" \/ KeyServes(cfg.cert, SuiteAuth(x))
 EffSuites(cfg, role, v) == {x \in Listed(cfg, v) : CredOK(cfg, role, x)}
 
 \* configurations the oracle speaks about (scope of the enumeration, see docs/C11.md):
@@ -212,7 +217,7 @@ SrtpLists  == << {}, {1}, {1, 2}, {7} >>
 AlpnLists  == << {}, {"a"}, {"a", "b"}, {"c"} >>
 CCreds == << [psk |-> FALSE, cert |-> "none"], [psk |-> TRUE, cert |-> "none"], [psk |-> FALSE, cert |-> "ecdsa"] >>
 SCreds == << [psk |-> FALSE, cert |-> "ecdsa"], [psk |-> FALSE, cert |-> "rsa"], [psk |-> TRUE, cert |-> "none"],
-             [psk |-> TRUE, cert |-> "ecdsa"], [psk |-> TRUE, cert |-> "rsa"] >>
+             [psk |-> TRUE, cert |-> "ecdsa"], [psk |-> TRUE, cert |-> "rsa"], [psk |-> FALSE, cert |-> "ed25519"] >>
 Vers == << "12", "13", "dual" >>
 CidsC == << -1, 0, 4 >>
 CidsS == << -1, 0, 8 >>
@@ -289,7 +294,7 @@ SuiteWithinBoth ==
      /\ E.suites # {}
      /\ \A x \in E.suites :
           /\ x \in Listed(c, E.ver) /\ x \in Listed(s, E.ver) /\ SuiteVer(x) = E.ver
-          /\ (SuiteAuth(x) \in {"ecdsa", "rsa"} => s.cert = SuiteAuth(x))
+          /\ (SuiteAuth(x) \in {"ecdsa", "rsa"} => KeyServes(s.cert, SuiteAuth(x)))
           /\ (SuiteAuth(x) = "cert" => s.cert # "none")
           /\ (SuiteAuth(x) = "psk" => c.psk /\ s.psk)
 GroupWithinBoth ==
